@@ -532,6 +532,9 @@ def _run_rebalance(case):
             res.fail("cash after rebalance %d (t0+%ds) is %r, reference %.17g" % (done, offset, cash_of(broker), ref.bal))
         if cash_of(broker) != before + profit:
             res.fail("rebalance %d reports profit %r but cash moved %r -> %r" % (done, profit, before, cash_of(broker)))
+        if abs(Decimal(float(reb.context_pre.nlv)) - Decimal(float(reb.context_post.nlv))) > REL * abs(Decimal(float(reb.context_post.nlv))) * 0 + Decimal("1e-12") * abs(Decimal(float(reb.context_post.nlv))):
+            res.fail("rebalance %d trades nothing but its pre-trade snapshot shows NLV %r and its post-trade snapshot %r (interest of the period: %r)" % (
+                done, reb.context_pre.nlv, reb.context_post.nlv, profit))
         if broker.track_record[-1] is not reb or len(broker.track_record) != done + 1:
             res.fail("track record does not end with rebalance %d" % done)
         if others(broker) != still:
